@@ -1,13 +1,20 @@
 package main
 
 import (
+	"bufio"
 	"fmt"
 	"os"
+	"strconv"
 )
+
+// generators of op lines, by op family.
+var gens = map[string]func(r *rng, n int, w *bufio.Writer){
+	"match": genMatch,
+}
 
 func main() {
 	if len(os.Args) < 2 {
-		fmt.Fprintln(os.Stderr, "usage: harness <cmd> ...")
+		fmt.Fprintln(os.Stderr, "usage: harness defects | harness gen <family> <seed> <n>")
 		os.Exit(2)
 	}
 
@@ -16,6 +23,21 @@ func main() {
 		if runDefects() > 0 {
 			os.Exit(1)
 		}
+	case "gen":
+		if len(os.Args) < 5 {
+			fmt.Fprintln(os.Stderr, "usage: harness gen <family> <seed> <n>")
+			os.Exit(2)
+		}
+		g, ok := gens[os.Args[2]]
+		if !ok {
+			fmt.Fprintln(os.Stderr, "unknown family", os.Args[2])
+			os.Exit(2)
+		}
+		seed, _ := strconv.ParseUint(os.Args[3], 10, 64)
+		n, _ := strconv.Atoi(os.Args[4])
+		w := bufio.NewWriterSize(os.Stdout, 1<<20)
+		g(newRng(seed), n, w)
+		_ = w.Flush()
 	default:
 		fmt.Fprintln(os.Stderr, "unknown command", os.Args[1])
 		os.Exit(2)
